@@ -273,7 +273,11 @@ def check(case, ctx):
             expected = lambda v: getattr(v, f)(axis=None)
         else:
             label = "ds.%s(axis=%r)" % (f, axis)
-            fn = lambda: getattr(ds, f)(axis=axis)
+            if axis == 0:
+                label = "ds.%s()" % f
+                fn = lambda: getattr(ds, f)()           # axis=0 (the dataset's first dimension) is the default
+            else:
+                fn = lambda: getattr(ds, f)(axis=axis)
             expected = lambda v: getattr(v, f)(axis=d) if d in v.dims else v
     elif what == 'take_axis':
         labs = case["labels"]
